@@ -80,7 +80,7 @@ def run_case(case, name):
     sim.set_error_strategy({"log": ErrorStrategy.LOG_AND_CONTINUE, "warn": ErrorStrategy.WARN_AND_CONTINUE,
                             "pause": ErrorStrategy.WARN_AND_PAUSE}[case["strategy"]])
 
-    rec = {"trace": [], "outs": [], "ntfs": [], "obs": [], "snaps": [], "notes": [], "log": []}
+    rec = {"trace": [], "outs": [], "ntfs": [], "obs": [], "snaps": [], "notes": [], "log": [], "canc": []}
     prog = case["prog"]
     stats_spec = case.get("stats")
 
@@ -185,6 +185,8 @@ def run_case(case, name):
                     if a[1] < len(self.created):
                         was = sim.eventlist().contains(self.created[a[1]])
                         sim.cancel_event(self.created[a[1]])
+                        if was:
+                            rec["canc"].append(a[1])
                         rec["log"].append(["cancel", a[1], bool(was), sim.eventlist().contains(self.created[a[1]])])
                 elif kind == "fail":
                     raise RuntimeError("injected fault")
